@@ -144,6 +144,9 @@ loop:
 func (x *opPathIdent) Type() OT_OpType { return OT_PathIdent }
 
 func (x *opPathIdent) Sprint(depth int) (out string) {
+	if x.propagateNull {
+		return x.IdentName + "?"
+	}
 	return x.IdentName
 }
 
